@@ -316,6 +316,8 @@ class StereoMolGraph(MolGraph):
         for atom in self.atoms:
             if stereo := self.get_atom_stereo(atom):
                 enantiomer.set_atom_stereo(stereo.invert())
+        for bond_stereo in self._bond_stereo.values():
+            enantiomer.set_bond_stereo(bond_stereo.invert())
         return enantiomer
 
     def _to_rdmol(
